@@ -122,6 +122,7 @@ for pid in ids:
         "quick_cmd": f"/verif/bin/qverif check -prop {pid} -tier quick",
         "thorough_cmd": f"/verif/bin/qverif check -prop {pid} -tier thorough",
         "evidence_file": f"/verif/evidence/{pid}.json",
+        "replay_cmd_template": "/verif/bin/qverif replay {path}",
         "engine": "qverif",
         "level_claimed": {"category": "other", "text": c['text'], "design_ref": "DESIGN.md section " + c['ref']},
         "level_note": c['note'],
